@@ -101,6 +101,7 @@ ApplyModel(o) ==
 Observe(a, o) ==
     /\ Len(hist) < MaxDepth
     /\ CASE a = "logd" -> TRUE
+         [] a = "bad_call" -> objs[o].kind # "model"      \* a malformed call (unknown keyword) that is refused: nothing changes
          [] a = "gradient" -> objs[o].kind # "model"
          [] a = "sample" -> objs[o].kind \in {"factor", "composite"}
          [] a = "run_sampler" -> objs[o].kind = "cond" /\ Cardinality(Free(o)) = 1
@@ -110,7 +111,7 @@ Observe(a, o) ==
 
 Next == \/ \E o \in Ids, S \in SUBSET V : Condition(o, S)
         \/ \E o \in Ids : ToLikelihood(o) \/ CopyEnableFD(o) \/ ApplyModel(o) \/ CondFactor(o) \/ MutateCopy(o)
-        \/ \E o \in Ids, a \in {"logd", "gradient", "sample", "run_sampler", "gibbs"} : Observe(a, o)
+        \/ \E o \in Ids, a \in {"logd", "gradient", "sample", "run_sampler", "gibbs", "bad_call"} : Observe(a, o)
 Spec == Init /\ [][Next]_vars
 
 \* ---- properties ------------------------------------------------------------------------
